@@ -26,7 +26,7 @@ INFO = {
     'assumptions': ['ideal hash / signature model: injective, unforgeable (symex/crypto.py)'],
 }
 MANDATORY = {'cover_data': ['signed-portion-is-the-specified-range'], 'cover_interest': ['signed-portion-is-the-specified-range'],
-             'tamper': ['tampering-detected'], 'sigzero': ['tampering-detected']}
+             'tamper': ['tampering-detected'], 'sigzero': ['tampering-detected'], 'confuse': ['tampering-detected']}
 
 
 def run_sync(coro):
@@ -403,7 +403,44 @@ def h_tamper(eng, case):
     eng.reach('end')
 
 
-HARNESSES = {'sigzero': h_sigzero, 'cover_data': h_cover, 'cover_interest': h_cover, 'tamper': h_tamper}
+def h_confuse(eng, case):
+    """algorithm confusion: a packet made by somebody who knows only PUBLIC material - the verifier's key bits used as a
+    MAC key, a plain digest, no signature at all - and announces whatever SignatureType suits him must be rejected by a
+    verifier object that was built for one key of one kind"""
+    import ndn.encoding as enc
+    from ndn import security as sec
+    from ndn.security.validator import known_key_validator as kv
+    V, forge, pkt = case['verifier'], case['forge'], case['pkt']
+    keybits = {'ecdsa': lambda: crypto.make_key('ecc', 'k'), 'rsa': lambda: crypto.make_key('rsa', 'k'),
+               'ed25519': lambda: crypto.make_key('ed', 'k'), 'hmac': lambda: b'hmac-key-k'}[V]()
+    chk = {'ecdsa': kv.EccChecker, 'rsa': kv.RsaChecker, 'ed25519': kv.Ed25519Checker,
+           'hmac': kv.HmacChecker}[V].from_key(env.KEY_NAME, keybits)
+    env.symbolic_env(eng)
+    if forge == 'hmac-with-the-public-key':
+        signer = sec.HmacSha256Signer(env.KEY_NAME, tobytes(keybits))
+    elif forge == 'digest':
+        signer = sec.DigestSha256Signer(pkt == 'interest')
+    else:
+        signer = sec.NullSigner()
+    name = env.name_from_shape(eng, [(1, 1)])
+    try:
+        if pkt == 'data':
+            wire = enc.make_data(name, enc.MetaInfo(freshness_period=eng.int('fp', 0, 65535)), eng.bytes('c', 1), signer)
+            n2, _, _, sig = enc.parse_data(wire)
+        else:
+            wire = enc.make_interest(name, enc.InterestParam(nonce=eng.int('nonce', 0, 2 ** 32 - 1)), eng.bytes('a', 1),
+                                     signer)
+            n2, _, _, sig = enc.parse_interest(wire)
+        got = run_sync(chk(n2, sig))
+    except Exception as e:
+        eng.fail('tampering-detected', 'confuse-raises:' + exc_sig(e), repr(e)[:150])
+        return
+    eng.check(Not(got) if not isinstance(got, bool) else (not got), 'tampering-detected',
+              {'verifier': V, 'forged_with': forge}, sig='forged-packet-accepted:' + forge)
+    eng.reach('end')
+
+
+HARNESSES = {'confuse': h_confuse, 'sigzero': h_sigzero, 'cover_data': h_cover, 'cover_interest': h_cover, 'tamper': h_tamper}
 KINDS = ['digest', 'hmac', 'rsa', 'ecdsa', 'ed25519']
 
 
@@ -422,6 +459,12 @@ def cases(tier, seed):
                                {'weight': 10}))
     for kind in ('rsa', 'ed25519', 'hmac'):
         cs.append(('sigzero', {'signer': kind}, {'weight': 20}))
+    for V in ('ecdsa', 'rsa', 'ed25519', 'hmac'):
+        for forge in ('hmac-with-the-public-key', 'digest', 'null'):
+            if V == 'hmac' and forge.startswith('hmac'):
+                continue
+            for pkt in ('data', 'interest'):
+                cs.append(('confuse', {'verifier': V, 'forge': forge, 'pkt': pkt}, {'weight': 3}))
     # a signer object that has signed before (same kind of packet, the other kind, several)
     for kind in KINDS:
         for n in (1, 2):
